@@ -87,23 +87,22 @@ def main():
         man = json.load(open(os.path.join(VERIF, "MANIFEST.json")))
         allp = [c["property_id"] for c in man["checks"]]
         props = props or allp
-        base = {}
-        for p in props:
-            rc, out = sh("%s/check %s" % (VERIF, p), env=env2)
-            base[p] = set(l.split("replay=")[1] for l in out.splitlines() if l.startswith("VIOLATION"))
-            base[p] = set(json.load(open(x)).get("key") for x in base[p] if os.path.exists(x))
+        def scan():
+            rc, out = sh("python3 %s/rules/main.py scan-all %s" % (VERIF, " ".join(props)), env=env2)
+            last = out.strip().split("\n")[-1] if out.strip() else "{}"
+            try: d = json.loads(last)
+            except Exception: d = {"error": out[-300:]}
+            return d
+        base = scan()
         rc, out = sh("git apply --unsafe-paths --directory=%s %s || (cd %s && patch -p1 < %s)" % (sc, patch, sc, patch), cwd="/")
+        got = scan()
         caught = {}
-        for p in props:
-            rc, out = sh("%s/check %s" % (VERIF, p), env=env2)
-            keys = set()
-            for l in out.splitlines():
-                if l.startswith("VIOLATION"):
-                    x = l.split("replay=")[1]
-                    if os.path.exists(x): keys.add(json.load(open(x)).get("key"))
-            new = sorted(k for k in keys - base[p] if k)
-            if rc == 2: new = ["BROKEN-CHECKER: " + out[-300:]]
-            if new: caught[p] = new
+        if "error" in got:
+            caught = {p: ["BROKEN-CHECKER: " + str(got["error"])[-300:]] for p in props}
+        else:
+            for p in props:
+                new = sorted(k for k in set(got.get(p, [])) - set(base.get(p, [])) if k)
+                if new: caught[p] = new
         res["checks_caught"] = caught
     finally:
         shutil.rmtree(sc, ignore_errors=True); shutil.rmtree(evd, ignore_errors=True)
